@@ -45,6 +45,16 @@ def call_ref(it, name, args, kwargs, node, fr):
         return call_numpy(it, name, mod, fn, args, kwargs, node, fr)
     if mod == "builtins":
         return call_builtin(it, fn, args, kwargs, node, fr)
+    if mod == "operator" and len(args) == 2 and fn.lstrip("i") in ("add", "sub", "mul", "truediv", "floordiv", "mod", "pow", "and_", "or_", "matmul"):
+        # operator.add(a, b) is a + b; operator.iadd(a, b) is a += b (in place for arrays) and hands the result back
+        opn = {"add": ast.Add, "sub": ast.Sub, "mul": ast.Mult, "truediv": ast.Div, "floordiv": ast.FloorDiv, "mod": ast.Mod, "pow": ast.Pow,
+               "and_": ast.BitAnd, "or_": ast.BitOr, "matmul": ast.MatMult}[fn.lstrip("i") if fn not in ("and_", "or_") else fn]()
+        if fn.startswith("i") and fn not in ("and_", "or_"):
+            it.record("inplace", type(opn).__name__, [args[0]], {}, node, {"fresh": getattr(args[0], "fresh", None)})
+        r_ = it.binop(opn, args[0], args[1], node)
+        if fn.startswith("i") and getattr(args[0], "fresh", None) is not None and isinstance(r_, (Val, Unk)):
+            r_.fresh = args[0].fresh
+        return r_
     if mod == "pandas":
         return call_pandas(it, fn, args, kwargs, node, fr)
     if name.startswith(ROT):
